@@ -18,7 +18,7 @@ def plan(tier, seed):
     groups.append(KGroup("D", ints, timeout=900, jobs=6, mem_gb=14, label="STANDARD integers"))
     FD = "one syntax flag set: accept/reject, consumed count and digit decomposition vs the flag-parameterised reference recogniser (alphabet + - . 0 1 9 e E x X h n a N i f + one arbitrary byte)"
     if tier == "quick":
-        ff = ["f_no_special_4", "f_required_exponent_notation_4", "f_no_float_leading_zeros_4"] + pick([f for f in FFLAGS if f not in ("f_no_special_4", "f_required_exponent_notation_4", "f_no_float_leading_zeros_4")], seed, 3)
+        ff = [f for f in FFLAGS if f.endswith("_4")]     # every single-flag set on every run (a seeded sample missed a wrong-flag slip)
         ii = ["int_no_leading_zeros_i32_4", "int_required_sign_i32_4", "p2::int_prefix_x_i32_5", "p2::int_suffix_h_i32_4"]
     else:
         ff, ii = FFLAGS, IFLAGS
@@ -28,7 +28,7 @@ def plan(tier, seed):
     return {
         "kani": groups,
         "functions_encoded": ["lexical_parse_float::parse::parse_number (through the public API)", "lexical_parse_integer::algorithm"],
-        "bounds": ["STANDARD format: arbitrary bytes up to the stated length, error kind and index asserted", "each syntax flag alone plus a few documented interaction pairs (6 seeded + core in quick, all 16 float / 10 integer sets in thorough): strings over the number alphabet, accept/reject + value"],
+        "bounds": ["STANDARD format: arbitrary bytes up to the stated length, error kind and index asserted", "each syntax flag alone plus a few documented interaction pairs (14 float / 4 integer sets in quick, all 16 float / 10 integer sets in thorough): strings over the number alphabet, accept/reject + value"],
         "outside_claim": ["flag combinations not listed (2^18 monomorphisations cannot be compiled)", "prebuilt language formats", "float base prefix/suffix", "inputs longer than the bound", "error kinds for non-STANDARD flag sets"],
         "stubs_and_assumes": ["numeric back end stubbed; the stub exposes mantissa (low bits) and exponent (low 6 bits) so 'has the value of its digits' is checked on the decomposition"],
         "assumptions": ["reference recogniser kani/src/refs.rs::ref_float with STD_GRAM"],
